@@ -4,6 +4,12 @@ Oracle: REF with the documented scope rules (option of a choice, optional, closu
 rule body; a join commits after each separator), compared online with the real model AND the
 generated parser; plus the model-free metamorphic relation "when no failure was committed by a
 cut, the grammar with the cuts removed returns the same result".  DESIGN.md section 3/C05.
+
+Base grammars: random non-recursive ones, the nested-choice family, and LEFT-RECURSIVE layered
+expression grammars (direct left recursion, several left-recursive options per rule that share
+their prefix, optionals / closures / joins after the recursion, bracketed atoms): there a cut is
+passed to the right of a rule that is still growing its seed, and the rule is entered again at
+the same position after the option that passed the cut failed outside the cut's scope.
 """
 from __future__ import annotations
 
@@ -24,17 +30,33 @@ RULE = ('cases = (grammar variant with cuts, input): a cut-free base grammar (ch
         'choices in groups, rule calls) gets ONE cut inserted at every position of every sequence / option / optional / closure or '
         'join body (then sampled pairs); inputs = derived sentences, all their prefixes, and each prefix continued by every alphabet '
         'token (so that parses fail right after each cut), for first and later iterations; non-trivial = a failure was COMMITTED by '
-        'a cut in REF (the cut decided the outcome) or the cut-free grammar and the cut grammar differ; distinct by (variant text, input)')
+        'a cut in REF (the cut decided the outcome) or the cut-free grammar and the cut grammar differ; distinct by (variant text, input). '
+        'Left-recursive family: cut-free layered expression grammars with DIRECT left recursion (1-2 layers; per layer 1-4 left-recursive '
+        'options: two options sharing the prefix `x op y` where the first needs more input after the operand, optional / closure / '
+        'nested-choice tails, postfix, index and call forms, unary prefix; atoms with parentheses, lists, dotted numbers; five start '
+        'shapes) get cuts inserted the same way at every position of every rule; inputs = sentences, sentences with one token dropped '
+        '(a terminator missing after the operand - and the cuts in it - was parsed), all prefixes, prefixes continued by every token; '
+        'not run with memoization off (documented to disable left recursion)')
 ASSUMPTIONS = [
     'REF implements the documented cut scopes (docs/syntax.rst "~" and the equivalences for [x], {x}, {x}+; joins cut after each separator)',
     'the metamorphic relation is applied only to executions in which REF committed no failure (otherwise an outer alternative may legitimately differ)',
+    'left-recursive family: REF implements the documented seed growing (the model C03 trusts); the family stays within direct left recursion '
+    '(the recorded C03 finding needs a cycle entered through a non-leader); the lr:* counters come from a probe on REF that takes no part in the verdict',
 ]
 FLOORS = {
     'quick': {'cut_committed': 4000, 'scope:option': 500, 'scope:optional': 200, 'scope:closure-iteration-1': 100,
               'scope:closure-iteration-n': 200, 'scope:join-after-separator': 200, 'gen_compared': 15000,
-              'metamorphic_checked': 15000, 'variants': 900, 'variants_with_cut_reached_through_include': 25, 'nested_choice_family': 100, 'nested_choice_family:include': 20, 'nested_choice_family:optwrap-include': 10, 'config:memoization': 100, 'config:prune_memos_on_cut': 100},
+              'metamorphic_checked': 15000, 'variants': 900, 'variants_with_cut_reached_through_include': 25, 'nested_choice_family': 100, 'nested_choice_family:include': 20, 'nested_choice_family:optwrap-include': 10, 'config:memoization': 100, 'config:prune_memos_on_cut': 100,
+              # left-recursive family (measured minima over seeds 0,1,2,3,7,11: 32 / 16 / 348 / 3863 / 1674 / 2004 / 5208 / 827 / 149)
+              'lr_family': 24, 'lr_family:shared-prefix': 8, 'lr_family:variants': 250, 'lr:accepted_after_growth': 2000,
+              'lr:cut_committed+grown': 800, 'lr:cut_passed+grown+backtracked+no_commit': 1000,
+              'lr:cut_passed_right_of_a_growing_rule': 2500, 'lr:growing_rule_reentered_after_cut': 400,
+              'lr:growing_rule_reentered_after_cut+no_commit+accepted': 60},
     'thorough': {'cut_committed': 150000, 'scope:closure-iteration-n': 5000, 'scope:join-after-separator': 5000,
-                 'gen_compared': 400000, 'variants': 30000},
+                 'gen_compared': 400000, 'variants': 30000,
+                 'lr_family': 400, 'lr_family:shared-prefix': 160, 'lr:accepted_after_growth': 50000,
+                 'lr:cut_passed_right_of_a_growing_rule': 60000, 'lr:growing_rule_reentered_after_cut': 10000,
+                 'lr:growing_rule_reentered_after_cut+no_commit+accepted': 1500},
 }
 N_BASE = {'quick': 256, 'thorough': 6400}
 
@@ -173,13 +195,16 @@ def plain(parse, g, text):
 
 
 PARSE_CONFIGS = [{}, {}, {}, {'memoization': False}, {'prune_memos_on_cut': False}, {'perlinememos': 0.01}]
+LR_PARSE_CONFIGS = [c for c in PARSE_CONFIGS if c.get('memoization', True)]
 
 
-def check_variant(acc, g0, gv, texts, base_case, origin):
-    # the cut must commit under every memoization configuration (the grammars here are not left recursive)
-    cfg = PARSE_CONFIGS[h64('C05cfg', L.grammar_text(gv)) % len(PARSE_CONFIGS)]
+def check_variant(acc, g0, gv, texts, base_case, origin, family=None):
+    # the cut must commit under every memoization configuration; left-recursive grammars are not run with memoization off
+    # (docs/directives.rst: setting memoization to False disables left recursion)
+    configs = LR_PARSE_CONFIGS if family == 'lr' else PARSE_CONFIGS
+    cfg = configs[h64('C05cfg', L.grammar_text(gv)) % len(configs)]
     acc.count('config:' + ('+'.join(sorted(cfg)) or 'defaults'))
-    case = D.Case(gv, 'start', parse_settings=cfg)
+    case = (LRCase if family == 'lr' else D.Case)(gv, 'start', parse_settings=cfg)
     acc.count('variants')
     if any(isinstance(x, L.Include) and any(isinstance(y, L.Cut) for y in L.walk(gv.rule(x.name).body))
            for r in gv.rules for x in L.walk(r.body)):
@@ -192,12 +217,14 @@ def check_variant(acc, g0, gv, texts, base_case, origin):
     gen_cls = None
     plain_model = None
     runaway = 0
-    for text in texts:
+    for idx, text in enumerate(texts):
         tag, a, b, r = D.compare(case, text)
         acc.evaluations += 1
         if tag == 'ref-budget':
             acc.count('ref_budget')
             continue
+        if family == 'lr':
+            lr_observe(acc, a, r)
         if tag in ('exc:StepBudget', 'exc:RecursionError'):
             runaway += 1
         if r.cut_failures:
@@ -213,9 +240,18 @@ def check_variant(acc, g0, gv, texts, base_case, origin):
                 g2, t2, a2, b2, r2 = gv, text, a, b, r
             scopes = '+'.join(sorted(r2.cut_scopes)) or 'no-commit'
             cfgname = '+'.join(sorted(cfg)) or 'defaults'
-            acc.violation(f'{tag}/scopes:{scopes}/{kind_sig(g2)}' + ('' if not cfg else f'/config:{cfgname}'),
+            more = ''
+            if r2.lr_growth:
+                more += f' [left recursion: seed growing at {sorted(r2.lr_heads)}]'
+            if r2.cut_failures == 0:
+                # no failure was committed: the statement's last clause applies as well - say what the cut-free grammar gives
+                b02 = D.Case(strip_cuts(g2), 'start', parse_settings=cfg).tatsu(t2)
+                more += (f' [no failure was committed by a cut; the same grammar WITHOUT the cuts gives {b02}'
+                         + (': the cut changed the result of an input the committed path parses]' if b02 != b2 else ']'))
+            acc.violation(f'{tag}/scopes:{scopes}/{kind_sig(g2)}' + ('/lr-grown' if r2.lr_growth else '')
+                          + ('' if not cfg else f'/config:{cfgname}'),
                           f'cut semantics differ from the documented scope rules ({tag}): grammar {L.grammar_text(g2).strip()!r} '
-                          f'input {t2!r} REF={a2} TATSU={b2}',
+                          f'input {t2!r} REF={a2} TATSU={b2}' + more,
                           D.witness(g2, 'start', t2, a2, b2, r2, origin=origin))
             if runaway >= 2:
                 break
@@ -242,7 +278,7 @@ def check_variant(acc, g0, gv, texts, base_case, origin):
                 acc.violation('gen-build:' + type(e).__name__, f'code generation failed: {e} for {L.grammar_text(gv)!r}',
                               D.witness(gv, 'start', text, a, b, r, origin=origin))
                 gen_cls = False
-        if gen_cls:
+        if gen_cls and (family != 'lr' or idx % 3 == 0):
             m_out = plain(lambda t, **kw: plain_model.parse(t, **kw, **cfg), gv, text)
             g_out = plain(lambda t, **kw: gen_cls().parse(t, **kw, **cfg), gv, text)
             acc.count('gen_compared')
@@ -338,9 +374,291 @@ def run_nested(desc, acc):
         check_variant(acc, g0, gv, nested_choice_inputs(rng), base_case, {'shard': desc['shard'], 'i': i, 'family': 'nested-choice'})
 
 
+# ------------------------------------------------------------------ left-recursive base grammars
+LR_OPS = ['+', '-', '*', '/']
+N_LR = {'quick': 2, 'thorough': 8}          # base grammars per shard
+LR_VARIANTS = {'quick': 9, 'thorough': 14}
+LR_TEXTS = {'quick': 44, 'thorough': 70}
+
+
+def lr_base_grammar(rng):
+    """cut-free layered expression grammar whose layers are DIRECTLY left recursive (each rule calls itself, lower layers and,
+    inside brackets, the top layer - never a higher layer at its own start position), with several left-recursive options per
+    rule: options that share the operator prefix and differ in what follows the operand (e = e '+' t ';' | e '+' t | t),
+    options with optionals / closures / joins / nested choices after the recursion, postfix, index and call forms; atoms
+    with parentheses, lists and dotted numbers; different start shapes.  -> (grammar, tags)"""
+    T, C, S = L.Tok, L.Call, L.Seq
+    nlayers = rng.choice([1, 1, 2])
+    ops = rng.sample(LR_OPS, 4)
+    layers = ['e', 'm'][:nlayers]
+    tags = set()
+    rules = []
+    for i, x in enumerate(layers):
+        nxt = layers[i + 1] if i + 1 < nlayers else 't'
+        op, op2 = ops[2 * i], ops[2 * i + 1]
+
+        def tail(kind, o, nxt=nxt, op2=op2):
+            return {
+                'bin': lambda: (T(o), C(nxt)),
+                'term': lambda: (T(o), C(nxt), T(';')),
+                'optmark': lambda: (T(o), L.Opt(T('!')), C(nxt)),
+                'optsuffix': lambda: (T(o), C(nxt), L.Opt(S((T('!'), C(nxt))))),
+                'clo': lambda: (T(o), C(nxt), L.Clo(S((T('.'), C(nxt))))),
+                'postfix': lambda: (T('!'),),
+                'index': lambda: (T('['), C('e'), T(']')),
+                'call': lambda: (T('('), L.Join(T(','), C('e'), False, rng.random() < 0.5), T(')')),
+                'opgroup': lambda: (L.Group(L.Choice((T(o), T(op2)))), C(nxt)),
+            }[kind]()
+
+        lr = []
+        n_lr = rng.choice([1, 2, 2, 2, 3])
+        if n_lr >= 2 and rng.random() < 0.7:
+            # two left-recursive options with the same prefix `x op nxt`: the first one needs more input after the operand
+            extra = rng.choice([(T(';'),), (T('!'),), (T('.'), C(nxt)), (L.PClo(T('!')),), (L.Opt(T('!')), T(';')),
+                                (T('['), C('e'), T(']'))])
+            pair = [S((C(x), T(op), C(nxt), *extra)), S((C(x), T(op), C(nxt)))]
+            if rng.random() < 0.15:
+                pair.reverse()
+            lr += pair
+            tags.add('shared-prefix')
+        else:
+            lr.append(S((C(x), *tail(rng.choice(['bin', 'term', 'optmark', 'optsuffix', 'clo', 'opgroup']), op))))
+            if n_lr >= 2:
+                lr.append(S((C(x), *tail(rng.choice(['bin', 'term', 'optmark', 'clo']), op2))))
+        if n_lr >= 3 or rng.random() < 0.2:
+            k = rng.choice(['postfix', 'index', 'call', 'bin'])
+            lr.insert(rng.randrange(len(lr) + 1), S((C(x), *tail(k, op2))))
+            tags.add('tail:' + k)
+        opts = list(lr)
+        if rng.random() < 0.2:
+            opts.insert(rng.choice([0, len(opts)]), S((T('-'), C(x))))      # unary prefix, right recursive
+            tags.add('unary')
+        opts.append(C(nxt))
+        rules.append(L.Rule(x, L.Choice(tuple(opts))))
+    atom = []
+    if rng.random() < 0.85:
+        atom.append(S((T('('), C('e'), T(')'))))
+        tags.add('parens')
+    if rng.random() < 0.25:
+        atom.append(S((T('['), L.Join(T(','), C('e'), True, rng.random() < 0.5), T(']'))))
+        tags.add('list-atom')
+    atom.append(S((C('num'), L.Clo(S((T('.'), C('num')))))) if rng.random() < 0.2 else C('num'))
+    rules.append(L.Rule('t', L.Choice(tuple(atom)) if len(atom) > 1 else atom[0]))
+    rules.append(L.Rule('num', L.Pat(r'\d')))
+    k = rng.random()
+    if k < 0.4:
+        start = S((C('e'), L.EOF()))
+    elif k < 0.6:
+        start = C('e')
+    elif k < 0.75:
+        start = S((L.PClo(S((C('e'), T(';')))), L.EOF()))
+    elif k < 0.9:
+        start = S((L.Join(T(','), C('e'), True, rng.random() < 0.5), L.EOF()))
+    else:
+        start = S((C('e'), L.Opt(T(';')), L.EOF()))
+    if nlayers > 1:
+        tags.add('two-layers')
+    return L.Grammar([L.Rule('start', start)] + rules), tags
+
+
+def lr_min_cost(g):
+    """rule -> length in tokens of a shortest sentence (fixpoint); used to end derivations"""
+    INF = 10 ** 6
+    cost = {r.name: INF for r in g.rules}
+
+    def c(e):
+        if isinstance(e, (L.Tok, L.Pat)):
+            return 1
+        if isinstance(e, L.Call):
+            return cost[e.name]
+        if isinstance(e, L.Seq):
+            return min(INF, sum(c(i) for i in e.items))
+        if isinstance(e, L.Choice):
+            return min(c(o) for o in e.opts)
+        if isinstance(e, (L.Opt, L.Clo)) or (isinstance(e, L.Join) and not e.positive):
+            return 0
+        if isinstance(e, (L.PClo, L.Group, L.Join)):
+            return c(e.e)
+        return 0
+    changed = True
+    while changed:
+        changed = False
+        for r in g.rules:
+            v = c(r.body)
+            if v < cost[r.name]:
+                cost[r.name] = v
+                changed = True
+    return c
+
+
+def lr_derive(rng, g, e, cost, depth=0):
+    """a sentence of the (cut-free) grammar as a list of tokens; beyond a depth the cheapest alternatives are taken"""
+    d = depth + 1
+    deep = depth > 5
+    if isinstance(e, L.Tok):
+        return [e.s]
+    if isinstance(e, L.Pat):
+        return [rng.choice('123')]
+    if isinstance(e, L.Call):
+        return lr_derive(rng, g, g.rule(e.name).body, cost, d)
+    if isinstance(e, L.Seq):
+        return [t for i in e.items for t in lr_derive(rng, g, i, cost, d)]
+    if isinstance(e, L.Choice):
+        o = min(e.opts, key=cost) if deep or rng.random() < 0.3 else rng.choice(e.opts)
+        return lr_derive(rng, g, o, cost, d)
+    if isinstance(e, L.Group):
+        return lr_derive(rng, g, e.e, cost, d)
+    if isinstance(e, L.Opt):
+        return lr_derive(rng, g, e.e, cost, d) if not deep and rng.random() < 0.5 else []
+    if isinstance(e, (L.Clo, L.PClo)):
+        n = (1 if isinstance(e, L.PClo) else 0) if deep else rng.choice([0, 1, 1, 2] if isinstance(e, L.Clo) else [1, 1, 2])
+        return [t for _ in range(n) for t in lr_derive(rng, g, e.e, cost, d)]
+    if isinstance(e, L.Join):
+        n = (1 if e.positive else 0) if deep else rng.choice([1, 1, 2, 3] if e.positive else [0, 1, 2])
+        out = []
+        for i in range(n):
+            if i:
+                out += lr_derive(rng, g, e.sep, cost, d)
+            out += lr_derive(rng, g, e.e, cost, d)
+        return out
+    return []
+
+
+def lr_inputs(rng, g, cap):
+    """sentences of the cut-free grammar; each with one token dropped (an operand's terminator goes missing AFTER the operand
+    - and the cuts in it - was parsed), every prefix, every prefix continued by every token of the alphabet, a foreign token
+    put in the middle; written without blanks, some with blanks"""
+    cost = lr_min_cost(g)
+    alphabet = sorted({x.s for r in g.rules for x in L.walk(r.body) if isinstance(x, L.Tok)}) + ['1']
+    whole, near, edge = [], [], []
+    for _ in range(8):
+        s = lr_derive(rng, g, g.rules[0].body, cost)
+        if len(s) > 14:
+            continue
+        whole.append(s)
+        for k in range(len(s)):
+            near.append(s[:k] + s[k + 1:])
+            edge.append(s[:k])
+            for t in alphabet:
+                edge.append(s[:k] + [t])
+                if rng.random() < 0.15:
+                    near.append(s[:k] + [t] + s[k:])
+        for t in alphabet:
+            edge.append(s + [t])
+    out = []
+    for group, share in ((whole, cap), (near, cap // 2), (edge, cap)):
+        rng.shuffle(group)
+        seen = set(out)
+        for s in group:
+            text = (' ' if rng.random() < 0.15 else '').join(s)
+            if text not in seen:
+                seen.add(text)
+                out.append(text)
+                share -= 1
+                if share <= 0 or len(out) >= cap:
+                    break
+    return out[:cap]
+
+
+class ObsRef(R.Ref):
+    """REF plus one coverage probe (no part of the oracle): how often a rule under seed growing was entered AGAIN at its growing
+    position in the same growing round after a cut had been passed further right (the seed in use is older than the cut)"""
+
+    def __init__(self, *a, **kw):
+        super().__init__(*a, **kw)
+        self.round = {}            # growing key -> [seed hits in this round, cut passed to the right after a hit]
+        self.seed_reused_after_cut = 0
+        self.cut_during_growth = 0
+
+    def rule_body(self, r, pos):
+        key = (r.name, pos)
+        if key in self.growing:
+            self.round[key] = [0, False]
+        return super().rule_body(r, pos)
+
+    def call(self, name, pos):
+        p = pos if name.lstrip('_')[:1].isupper() else self.skip(pos)
+        seed = self.growing.get((name, p))
+        if seed is not None and seed['res'] is not None:
+            st = self.round.setdefault((name, p), [0, False])
+            if st[1]:
+                self.seed_reused_after_cut += 1
+            st[0] += 1
+        return super().call(name, pos)
+
+    def _ev(self, e, pos, st):
+        if isinstance(e, L.Cut):
+            for (n, p), seed in self.growing.items():
+                if p < pos and seed['res'] is not None:
+                    self.cut_during_growth += 1
+                    rs = self.round.get((n, p))
+                    if rs and rs[0]:
+                        rs[1] = True
+        return super()._ev(e, pos, st)
+
+
+class LRCase(D.Case):
+    def ref(self, text, max_steps=30000):
+        r = ObsRef(self.g, text, settings=self.settings, max_steps=max_steps)
+        try:
+            end, val = r.parse(self.start)
+            return ('ok', end, canon(val)), r
+        except R.PFail:
+            return ('fail',), r
+        except (R.RefBudget, RecursionError):
+            return ('budget',), r
+
+
+def lr_observe(acc, a, r):
+    """what the left-recursive family reached (evidence + floors)"""
+    if r.lr_growth and a[0] == 'ok':
+        acc.count('lr:accepted_after_growth')
+        if 'Cut' in r.features:
+            acc.count('lr:cut_passed+grown+accepted')
+            if r.cut_failures == 0 and r.backtracks:
+                acc.count('lr:cut_passed+grown+backtracked+no_commit')
+    if r.lr_growth and r.cut_failures:
+        acc.count('lr:cut_committed+grown')
+    if getattr(r, 'cut_during_growth', 0):
+        acc.count('lr:cut_passed_right_of_a_growing_rule')
+    if getattr(r, 'seed_reused_after_cut', 0):
+        acc.count('lr:growing_rule_reentered_after_cut')
+        if a[0] == 'ok' and r.cut_failures == 0:
+            acc.count('lr:growing_rule_reentered_after_cut+no_commit+accepted')
+
+
+def run_lr(desc, acc):
+    tier = desc['tier']
+    for i in range(N_LR[tier]):
+        rng = random.Random(h64('C05', 'lr', desc['seed'], desc['shard'], i))
+        g0, tags = lr_base_grammar(rng)
+        g0 = L.Grammar([L.Rule(r.name, G.normalise(r.body)) for r in g0.rules])
+        lrec, _graph, _hidden, _nul = R.left_recursive_rules(g0)
+        sccs = R.left_sccs(g0)
+        if any(len(sccs[n]) > 1 for n in lrec):
+            acc.count('lr_family:indirect_skipped')      # by construction never: the family is DIRECT left recursion
+            continue
+        base_case = D.Case(g0, 'start')
+        if base_case.model is None:
+            acc.count('base_build_failed')
+            continue
+        acc.count('lr_family')
+        for t in sorted(tags):
+            acc.count('lr_family:' + t)
+        vs = variants(rng, g0, LR_VARIANTS[tier])
+        texts = lr_inputs(rng, g0, LR_TEXTS[tier])
+        for gv in vs:
+            acc.count('lr_family:variants')
+            check_variant(acc, g0, gv, texts, base_case, {'shard': desc['shard'], 'i': i, 'family': 'left-recursive'},
+                          family='lr')
+        if i == 0 and vs:
+            acc.sample({'family': 'left-recursive', 'base': L.grammar_text(g0), 'variant': L.grammar_text(vs[0]), 'inputs': texts[:8]})
+
+
 def run_shard(desc, acc):
     tier = desc['tier']
     run_nested(desc, acc)
+    run_lr(desc, acc)
     for i in range(desc['n']):
         rng = random.Random(h64('C05', desc['seed'], desc['shard'], i))
         g0 = base_grammar(rng)
@@ -370,7 +688,8 @@ MANIFEST = {
     'technique': 'runtime monitoring: reference-model oracle for cut scopes over systematic cut insertion + metamorphic cut-free relation + model/generated differential',
     'level_text': 'cuts are inserted systematically at every position of every scope kind of generated grammars; inputs are built to fail right after '
                   'each cut in first and later iterations; every execution of the model is compared with REF and with the generated parser, and with '
-                  'the cut-free grammar when no failure was committed',
+                  'the cut-free grammar when no failure was committed; the base grammars include directly left-recursive expression grammars, where cuts '
+                  'are passed while a seed is being grown',
     'level_note': 'trusted: vt/ref.py cut scopes (docs/syntax.rst); evidence lists how many failures were committed per scope kind; held = no '
                   'disagreement on those executions',
 }
